@@ -140,11 +140,15 @@ def model_derivative_job(interp, c, case):
     T = interp.load("bioscrape.types")
     Sm = interp.load("bioscrape.simulator")
     k1, k2, k3 = c.real("k1", lo=0), c.real("k2", lo=0), c.real("k3", lo=0)
+    kf, kr = c.real("kf", lo=0), c.real("kr", lo=0)
     M = T.ns["Model"](species=["B", "A", "C"],
                       reactions=[(["A", "A"], ["B"], "massaction", {"k": "k1"}),
                                  (["A", "B"], ["A"], "massaction", {"k": "k2"}, "fixed", [], ["C", "C"], {"delay": "tau"}),
-                                 ([], ["A"], "massaction", {"k": "k3"})],
-                      parameters=[("k1", k1), ("k2", k2), ("k3", k3), ("tau", 1.0)])
+                                 ([], ["A"], "massaction", {"k": "k3"})]
+                      # a net flux written as one reaction may run backwards: the plain interface reports its (negative) rate as it is
+                      # (the safe interface documents that it warns and uses 0 instead)
+                      + ([] if safe else [(["B"], ["C"], "general", {"rate": "kf*A - kr*B"})]),
+                      parameters=[("k1", k1), ("k2", k2), ("k3", k3), ("tau", 1.0), ("kf", kf), ("kr", kr)])
     itf = Sm.ns["SafeModelCSimInterface" if safe else "ModelCSimInterface"](M)
     itf.py_prep_deterministic_simulation()
     st = {s: c.real("s_" + s, lo=0) for s in ("A", "B", "C")}
@@ -156,10 +160,12 @@ def model_derivative_job(interp, c, case):
     itf.py_calculate_deterministic_derivative(x, dx, 0)
     A, B = st["A"], st["B"]
     r1, r2, r3 = k1 * A * A, k2 * A * B, k3
-    want = {"A": -2 * r1 + r3, "B": r1 - r2, "C": 2 * r2}
+    r4 = 0 if safe else kf * A - kr * B
+    want = {"A": -2 * r1 + r3, "B": r1 - r2 - r4, "C": 2 * r2 + r4}
     _rep(c, s_and(*[dx[i] == want[s] for i, s in enumerate(M.get_species_list())]),
-         "%s interface on a real model: 2A->B, A+B->A (+2C delayed), 0->A gives dA=-2k1A^2+k3, dB=k1A^2-k2AB, dC=2k2AB"
-         % ("safe" if safe else "plain"), "model derivative", dict(kind="model_derivative", safe=safe))
+         "%s interface on a real model: 2A->B, A+B->A (+2C delayed), 0->A%s gives dA=-2k1A^2+k3, dB=k1A^2-k2AB%s, dC=2k2AB%s"
+         % (("safe", "", "", "") if safe else ("plain", ", B->C at the net rate kf*A-kr*B of either sign", "-(kfA-krB)", "+(kfA-krB)")),
+         "model derivative", dict(kind="model_derivative", safe=safe))
 
 
 def missing_param_job(interp, c, case):
